@@ -199,7 +199,10 @@ def corpus_cases():
 
 def generate(rng, n, tier):
     g = Gen(rng, pct_strings=True, max_depth=3 if tier == "quick" else 4)
-    cases = []
+    # the primitives the callables are made of (App. C), against the model: sampled / exhaustive over the atom pool
+    from props import prims
+    cases = prims.generate(rng, 600, tier)
+    n += len(cases)
     for (cls, ctor, args, kwargs, doc) in corpus_cases():
         c = make_case(cls, ctor, args, kwargs, doc)
         if c is not None:
